@@ -106,6 +106,8 @@ package ecs
 //@   serves C08
 //@   requires obsShape(m) && mask != nil && newMask != nil
 //@   loop 1 fires doc: (!o.hasComps || obsCompsIn(o, *mask)) && obsWithOK(o, *newMask)
+//@   modifies nothing
+//@   callbackframe
 
 //@ func (*observerManager).FireSetRelations
 //@   serves C08
